@@ -23,25 +23,38 @@ class Cancelled(BaseException):
     pass
 
 
-class Frame:
-    """What proceed.__enter__ hands to the instrumented code: an object with `outer` and `inner`."""
+def _fn():
+    """The instrumented function (no selector is pending for it: proceed(fn) finds nothing to register)."""
 
-    def __init__(self, inner):
-        self.outer = CUR.get()
-        self.inner = inner
+
+class Holder:
+    """Where the generator under test publishes the frame `with proceed(fn) as frame` gave it."""
+    frame = None
 
 
 LOG = []
+DELEGATE_SEEN = []  # (is the collection of the delegating activation current while the delegate's code runs?)
+HOLDER = [None]
+
+
+def note_delegate():
+    h = HOLDER[0]
+    if h is not None and h.frame is not None:
+        DELEGATE_SEEN.append(CUR.get() is h.frame.inner)
 
 
 def delegate_plain():
     LOG.append("d-start")
+    note_delegate()
     try:
         r = yield "d1"
+        note_delegate()
         LOG.append(("d-got", r))
         r = yield "d2"
+        note_delegate()
         LOG.append(("d-got", r))
     except KeyError as e:
+        note_delegate()
         LOG.append(("d-caught", type(e).__name__))
         yield "d-after-catch"
     except Cancelled:
@@ -69,16 +82,18 @@ class PlainIterator:
 
     def __next__(self):
         self.n += 1
+        note_delegate()
         if self.n > 2:
             raise StopIteration
         LOG.append(("it", self.n))
         return self.n
 
 
-def make(kind, mode, frame, seen):
-    """The generator under test (mode 'ptera') or its reference (mode 'python')."""
+def make(kind, mode, holder, seen):
+    """The generator under test (mode 'ptera': its body runs inside the real `with proceed(fn) as frame`, its yields go through the
+    frame's helpers) or its reference (mode 'python')."""
     def note_inner():
-        seen.append(("inner-running", CUR.get() is frame.inner if mode == "ptera" else True))
+        seen.append(("inner-running", CUR.get() is holder.frame.inner if mode == "ptera" else True))
 
     if kind == "yields" and mode == "python":
         def g():
@@ -95,17 +110,19 @@ def make(kind, mode, frame, seen):
             return ("done", a, b)
     elif kind == "yields":
         def g():
-            note_inner()
-            try:
-                a = yield from proceed.yielding(frame, "y1")
-            except ValueError:
-                LOG.append("g-caught")
+            with proceed(_fn) as frame:
+                holder.frame = frame
                 note_inner()
-                a = "caught"
-            note_inner()
-            b = yield from proceed.yielding(frame, ("y2", a))
-            note_inner()
-            return ("done", a, b)
+                try:
+                    a = yield from proceed.yielding(frame, "y1")
+                except ValueError:
+                    LOG.append("g-caught")
+                    note_inner()
+                    a = "caught"
+                note_inner()
+                b = yield from proceed.yielding(frame, ("y2", a))
+                note_inner()
+                return ("done", a, b)
     else:
         src = {"delegate": delegate_plain, "empty": delegate_empty, "iterator": PlainIterator}[kind]
         if mode == "python":
@@ -118,12 +135,14 @@ def make(kind, mode, frame, seen):
                 return (r, z)
         else:
             def g():
-                note_inner()
-                r = yield from proceed.delegating(frame, src())
-                note_inner()
-                LOG.append(("g-result", r))
-                z = yield from proceed.yielding(frame, "tail")
-                return (r, z)
+                with proceed(_fn) as frame:
+                    holder.frame = frame
+                    note_inner()
+                    r = yield from proceed.delegating(frame, src())
+                    note_inner()
+                    LOG.append(("g-result", r))
+                    z = yield from proceed.yielding(frame, "tail")
+                    return (r, z)
     return g()
 
 
@@ -132,30 +151,20 @@ OPS = ["next", "send", "send-falsy", "throw-V", "throw-K", "throw-B", "close"]
 
 def drive(kind, mode, ops):
     del LOG[:]
-    base = HandlerCollection([("base", "base")])
+    base = HandlerCollection([])
     CUR.set(base)
-    inner = HandlerCollection([("inner", "inner")])
-    frame = Frame(inner)
+    holder = Holder()
+    HOLDER[0] = holder if mode == "ptera" else None
+    del DELEGATE_SEEN[:]
     seen = []
     trace = []
     problems = []
-    expected_outer = base
-    if mode == "ptera":
-        CUR.set(inner)  # what proceed.__enter__ does; the generator body starts at the first next()
     started = False
-    gen = make(kind, mode, frame, seen)
-    if mode == "ptera":
-        # a generator function's body (and so `with proceed`) only starts at the first operation: emulate __enter__ there
-        CUR.set(base)
+    gen = make(kind, mode, holder, seen)
     for i, op in enumerate(ops):
-        if mode == "ptera":
-            # the consumer may have installed something else since the last operation
-            consumer = HandlerCollection([("consumer", i)]) if i % 2 else CUR.get()
-            CUR.set(consumer)
-            expected_outer = consumer
-            if not started:
-                frame.outer = CUR.get()
-                CUR.set(inner)  # __enter__
+        # the consumer may have installed something else (or nothing at all) since the last operation
+        consumer = [CUR.get(), HandlerCollection([]), None][i % 3]
+        CUR.set(consumer)
         try:
             if op == "next":
                 out = ("yielded", next(gen))
@@ -181,16 +190,22 @@ def drive(kind, mode, ops):
             out = ("raised", type(e).__name__)
             ended = True
         started = True
-        if mode == "ptera":
-            if ended and CUR.get() is inner:
-                CUR.set(frame.outer)  # __exit__ (runs when the generator's frame unwinds; emulated here at the same moment)
-            if CUR.get() is not expected_outer:
-                problems.append(f"after operation {i} ({op}) the consumer's collection is {CUR.get().handler_pairs if CUR.get() else None}, expected {expected_outer.handler_pairs}")
+        if CUR.get() is not consumer:
+            problems.append(f"after operation {i} ({op}) the consumer's collection is not the one it had before the operation")
         trace.append(out)
         if ended:
             break
     if mode == "ptera" and not all(ok for _, ok in seen):
         problems.append("the generator's own code ran while its inner collection was not current")
+    if mode == "ptera" and not all(DELEGATE_SEEN):
+        # what the generator delegates to runs as part of its activation (selectors that go through the generator apply to it)
+        problems.append("the delegate's code ran while the collection of the delegating activation was not current")
+    # dropping a generator that is still suspended closes it: the surrounding code keeps its collection
+    last = HandlerCollection([])
+    CUR.set(last)
+    del gen  # (reference counting finalises it at once)
+    if CUR.get() is not last:
+        problems.append("dropping the suspended generator changed the collection of the surrounding code")
     return trace, list(LOG), problems
 
 
@@ -212,6 +227,65 @@ for kind in ("yields", "delegate", "empty", "iterator"):
             break
     if bad:
         break
+
+def rec(n, frames):
+    """A recursive generator: its body advances another live generator of the SAME function."""
+    with proceed(_fn) as frame:
+        frames.append(frame)
+        yield from proceed.yielding(frame, ("own", n))
+        if n:
+            for v in rec(n - 1, frames):
+                yield from proceed.yielding(frame, v)
+        yield from proceed.yielding(frame, ("end", n))
+
+
+def stage(src, frames):
+    """A pipeline stage: advances the generator it was given (possibly already started by the driver)."""
+    with proceed(_fn) as frame:
+        frames.append(frame)
+        for v in src:
+            yield from proceed.yielding(frame, v)
+
+
+def nested_same_function():
+    """Several live activations of one function, one advancing the other, the consumer changing its collection between the operations:
+    every activation has its own bookkeeping (what to go back to, what is its own)."""
+    for build in ("recursive", "pipeline"):
+        for n_ops in range(1, 8):
+            for close_at_end in (False, True):
+                frames = []
+                CUR.set(HandlerCollection([]))
+                if build == "recursive":
+                    g = rec(2, frames)
+                else:
+                    inner = stage(iter([1, 2, 3]), frames)
+                    next(inner)  # primed by the driver
+                    g = stage(inner, frames)
+                for i in range(n_ops):
+                    consumer = [CUR.get(), HandlerCollection([]), None][i % 3]
+                    CUR.set(consumer)
+                    try:
+                        next(g)
+                    except StopIteration:
+                        pass
+                    if CUR.get() is not consumer:
+                        return f"{build}: after next number {i + 1} the consumer's collection is not the one it had"
+                last = HandlerCollection([])
+                CUR.set(last)
+                if close_at_end:
+                    g.close()
+                del g
+                if build == "pipeline":
+                    inner.close()
+                if CUR.get() is not last:
+                    return f"{build}: closing / dropping after {n_ops} operations changed the collection of the surrounding code"
+                if len({id(f) for f in frames}) != len(frames):
+                    return f"{build}: two activations share one frame object"
+    return None
+
+
+if not bad:
+    bad = nested_same_function()
 print(f"{count} (generator, operation sequence) pairs compared")
 if bad:
     print(bad)
